@@ -357,13 +357,14 @@ def pred_iter(prog, case, outs, tables, rooted):
                     bad.append((j, "ExactSize len() sequence %r, items actually yielded %d (remaining lengths %r)" % (o[2][:8], len(items), want[:8]), cls))
             continue
         if op["op"] == "iter" and o == PANIC and not op.get("_known"):
-            r0 = bool(op.get("root") is not None or "cap" in op["tg"] or op["d"] < prog.maxd or op.get("exact"))
+            r0 = bool((op.get("root") is not None and op.get("_root") != []) or "cap" in op["tg"] or op["d"] < prog.maxd or op.get("exact"))
             if r0 == rooted:
                 bad.append((j, "iteration panicked instead of terminating"))
             continue
         if op["op"] != "iter" or o == PANIC or op.get("_known"):
             continue
-        is_rooted = bool(op.get("root") is not None or "cap" in op["tg"] or op["d"] < prog.maxd or op.get("exact"))
+        # (re-)rooting at the tree root with an empty key is an iteration over the whole tree: judged with the unrooted ones
+        is_rooted = bool((op.get("root") is not None and op.get("_root") != []) or "cap" in op["tg"] or op["d"] < prog.maxd or op.get("exact"))
         if is_rooted != rooted:
             continue
         if op.get("root") is not None:
